@@ -357,3 +357,181 @@ class ProcessSamples(Contract):
 
 
 CONTRACTS = [ProcessSamples()]
+
+
+# ---------------------------------------------------------------------------------------------
+class Run(Contract):
+    """C15: run() reads the three sheets by ID, chains the processing steps and writes the sheets in the documented order"""
+    target = 'FlowCal.excel_ui.run'
+    property_ids = ('C15',)
+    frame = False
+    assumptions = ('run(): the table readers/processors/writers are summarised (recorded calls, uninterpreted results); os.path.split/'
+                   'splitext/join uninterpreted; termination and exception freedom of the real steps are outside contract reach',)
+
+    def cases(self):
+        out = []
+        for hs in (True, False):
+            for op in ('given', 'default'):
+                out.append({'label': 'hist_sheet=%s,output=%s' % (hs, op), 'hist': hs, 'out': op})
+        return out
+
+    def setup(self, I, case):
+        c = I.ctx
+        calls = []
+        aux = {'calls': calls}
+        DIR = z3.Function('path_dir', ST, ST)
+        FNAME = z3.Function('path_filename', ST, ST)
+        STEM = z3.Function('path_stem', ST, ST)
+        EXT = z3.Function('path_ext', ST, ST)
+        JOIN = z3.Function('path_join', ST, ST, ST)
+        aux.update({'DIR': DIR, 'FNAME': FNAME, 'STEM': STEM, 'JOIN': JOIN})
+
+        def rec(name, ret=None):
+            def f(I_, a, k):
+                calls.append((name, list(a), dict(k)))
+                r = ret(I_, a, k) if ret else None
+                return r
+            return Builtin(name, f)
+        tbl = lambda nm: Opaque('table', nm)
+        libs = {
+            'FlowCal.excel_ui.read_table': rec('read_table', lambda I_, a, k: tbl(k.get('sheetname'))),
+            'FlowCal.excel_ui.process_beads_table': rec('process_beads_table', lambda I_, a, k: stamp(Seq('tuple', [Opaque('beads_samples'), Opaque('mef_fxns'), Opaque('mef_outputs')]))),
+            'FlowCal.excel_ui.add_beads_stats': rec('add_beads_stats'),
+            'FlowCal.excel_ui.process_samples_table': rec('process_samples_table', lambda I_, a, k: Opaque('samples')),
+            'FlowCal.excel_ui.add_samples_stats': rec('add_samples_stats'),
+            'FlowCal.excel_ui.generate_histograms_table': rec('generate_histograms_table', lambda I_, a, k: tbl('Histograms')),
+            'FlowCal.excel_ui.generate_about_table': rec('generate_about_table', lambda I_, a, k: tbl('About')),
+            'FlowCal.excel_ui.write_workbook': rec('write_workbook'),
+            'os.path.split': Builtin('os.path.split', lambda I_, a, k: stamp(Seq('tuple', [SV(DIR(I_.z(a[0])), 'str'), SV(FNAME(I_.z(a[0])), 'str')]))),
+            'os.path.splitext': Builtin('os.path.splitext', lambda I_, a, k: stamp(Seq('tuple', [SV(STEM(I_.z(a[0])), 'str'), SV(EXT(I_.z(a[0])), 'str')]))),
+            'os.path.join': Builtin('os.path.join', lambda I_, a, k: SV(JOIN(I_.z(a[0]), I_.z(a[1])), 'str')),
+        }
+        # the summarised functions are module-level names of excel_ui: install them as call contracts
+        cc = {}
+        for full, b in libs.items():
+            if full.startswith('FlowCal.excel_ui.'):
+                cc[full] = (lambda b: lambda I_, a, k: b.fn(I_, a, k))(b)
+        self.config = {'module_overrides': libs, 'call_contracts': cc}
+        I.config.update(self.config)
+        I.call_contracts = cc
+        I.libs.update(libs)
+        aux['inp'] = c.fresh_str('input_path')
+        aux['outp'] = c.fresh_str('output_path')
+        kw = {'input_path': SV(aux['inp'], 'str'), 'output_path': SV(aux['outp'], 'str') if case['out'] == 'given' else None,
+              'verbose': False, 'plot': c.fresh_bool('plot') is None, 'hist_sheet': case['hist']}
+        kw['plot'] = False
+        return [], kw, aux
+
+    def check(self, I, case, aux, out):
+        P = I.ctx.prove
+        P('terminates-normally(given the summarised steps return)', out.kind == 'return')
+        if out.kind != 'return':
+            return
+        calls = aux['calls']
+        names = [c_[0] for c_ in calls]
+        reads = [c_ for c_ in calls if c_[0] == 'read_table']
+        P('three-sheets-read-by-ID', [(r[2].get('sheetname'), r[2].get('index_col')) for r in reads] ==
+          [('Instruments', 'ID'), ('Beads', 'ID'), ('Samples', 'ID')] and all(r[1] and r[1][0] is reads[0][1][0] for r in reads))
+        ww = [c_ for c_ in calls if c_[0] == 'write_workbook']
+        P('one-output-workbook-written-last', len(ww) == 1 and names[-1] == 'write_workbook')
+        if len(ww) != 1:
+            return
+        path, tl = ww[0][1][0], ww[0][1][1]
+        want = ['Instruments', 'Beads', 'Samples'] + (['Histograms'] if case['hist'] else []) + ['About Analysis']
+        okl = isinstance(tl, Seq) and [I.iterate_concrete(t)[0] for t in tl.items] == want
+        P('sheets-Instruments-Beads-Samples-(Histograms)-About-in-this-order', okl)
+        if okl:
+            tabs = [I.iterate_concrete(t)[1] for t in tl.items]
+            P('the-tables-written-are-the-ones-read-and-generated',
+              [getattr(t, 'payload', None) for t in tabs] == ['Instruments', 'Beads', 'Samples'] + (['Histograms'] if case['hist'] else []) + ['About'])
+        inp = aux['inp']
+        if case['out'] == 'given':
+            P('explicit-output-path-used', I.z(path) == aux['outp'])
+        else:
+            stem = aux['STEM'](aux['FNAME'](inp))
+            P('default-output-path-is-<input stem>_output.xlsx-next-to-the-input',
+              I.z(path) == aux['JOIN'](aux['DIR'](inp), z3.Concat(stem, S('_output.xlsx'))))
+        ps = [c_ for c_ in calls if c_[0] == 'process_samples_table']
+        P('samples-processed-with-the-beads-table-and-the-bead-transforms',
+          len(ps) == 1 and isinstance(ps[0][2].get('mef_transform_fxns'), Opaque) and ps[0][2]['mef_transform_fxns'].tag == 'mef_fxns'
+          and getattr(ps[0][2].get('beads_table'), 'payload', None) == 'Beads')
+        P('statistics-added-after-processing', names.index('add_beads_stats') > names.index('process_beads_table')
+          and names.index('add_samples_stats') > names.index('process_samples_table'))
+        P('histograms-generated-iff-requested', ('generate_histograms_table' in names) == case['hist'])
+
+
+class ReadTable(Contract):
+    """C15: rows without an identifier are dropped, THEN duplicated identifiers are refused; list/None sheet names refused"""
+    target = 'FlowCal.excel_ui.read_table'
+    property_ids = ('C15',)
+    frame = False
+    assumptions = ('read_table: pandas.read_excel / boolean-mask row selection / Index.has_duplicates are summarised (A-LIB)',)
+
+    def cases(self):
+        return [{'label': 'sheet-name,index'}, {'label': 'sheet-name,no-index'}, {'label': 'sheet-none'}, {'label': 'sheet-list'}]
+
+    def setup(self, I, case):
+        c = I.ctx
+        aux = {}
+        DUP = z3.Function('index_has_duplicates', Z, B)
+        aux['DUP'] = DUP
+        terms = {}
+
+        def tid(t):
+            return z3.IntVal(terms.setdefault(repr(t), len(terms)))
+        aux['tid'] = tid
+
+        def read_excel(I_, a, k):
+            aux['read_kwargs'] = dict(k)
+            return Opaque('df', ('read',))
+
+        def oattr(I_, obj, name):
+            if obj.tag == 'df':
+                if name == 'index':
+                    return Opaque('index', obj.payload)
+            if obj.tag == 'index' and name == 'has_duplicates':
+                return SV(DUP(tid(obj.payload)), 'bool')
+            if obj.tag == 'file':
+                if name == 'read':
+                    return Builtin('read', lambda I2, a, k: Opaque('bytes'))
+                if name in ('__enter__',):
+                    return Builtin('enter', lambda I2, a, k: obj)
+            return PB.NOATTR
+
+        def ogetitem(I_, obj, key):
+            if obj.tag == 'df' and isinstance(key, Opaque) and key.tag == 'notnull' and key.payload == obj.payload:
+                return Opaque('df', ('drop_null_index', obj.payload))
+            raise_py('KeyError', 'unsupported table key')
+        libs = {'pandas.read_excel': Builtin('pd.read_excel', read_excel),
+                'pandas.notnull': Builtin('pd.notnull', lambda I_, a, k: Opaque('notnull', a[0].payload)),
+                'six.BytesIO': Builtin('BytesIO', lambda I_, a, k: Opaque('bytesio'))}
+        self.config = {'module_overrides': libs, 'opaque_attr': oattr, 'opaque_getitem': ogetitem,
+                       'open_hook': lambda I_, a, k: Opaque('file', None)}
+        I.config.update(self.config)
+        I.libs.update(libs)
+        lab = case['label']
+        sheet = SV(c.fresh_str('sheet'), 'str') if lab.startswith('sheet-name') else (None if lab == 'sheet-none' else stamp(Seq('list', ['A', 'B'])))
+        idx = 'ID' if lab.endswith(',index') else None
+        aux['idx'] = idx
+        return [SV(c.fresh_str('filename'), 'str'), sheet], {'index_col': idx}, aux
+
+    def expected_outcomes(self, case):
+        return ['return', 'raise:ValueError'] if case['label'].startswith('sheet-name') else ['raise:TypeError']
+
+    def check(self, I, case, aux, out):
+        P = I.ctx.prove
+        if not case['label'].startswith('sheet-name'):
+            P('list-or-None-sheet-name-refused-with-TypeError', out.raised('TypeError'))
+            return
+        kept = ('drop_null_index', ('read',)) if aux['idx'] else ('read',)
+        dup = aux['DUP'](aux['tid'](kept))
+        if out.kind == 'raise':
+            P('refusal-is-a-ValueError', out.raised('ValueError'))
+            P('refused-only-for-duplicated-identifiers-among-the-kept-rows', dup)
+            return
+        P('returned-only-without-duplicated-identifiers', z3.Not(dup))
+        v = out.value
+        P('rows-without-identifier-dropped(and nothing else)', isinstance(v, Opaque) and v.tag == 'df' and v.payload == kept)
+
+
+CONTRACTS += [Run(), ReadTable()]
